@@ -74,16 +74,21 @@ func EnumPaths(from, to *ssa.BasicBlock, avoid func(*ssa.BasicBlock) bool, max i
 
 // PathsSatisfiable evaluates the disjunction of the paths' conjunctions under an assignment of
 // truth values to atoms (conditions are matched by the atom function, which returns the atom
-// index or -1 for conditions that are not atoms; such literals are treated as unconstrained).
+// index or -1 for conditions that are not atoms; such literals are treated as unconstrained;
+// a value <= -2 names the negation of atom -(v+2)).
 func PathsSatisfiable(paths []Path, atom func(ssa.Value) int, assign []bool) bool {
 	for _, p := range paths {
 		sat := true
 		for _, l := range p.Lits {
 			a := atom(l.Cond)
-			if a < 0 {
+			if a == -1 {
 				continue
 			}
-			if assign[a] != l.Truth {
+			truth := l.Truth
+			if a <= -2 {
+				a, truth = -(a + 2), !truth
+			}
+			if assign[a] != truth {
 				sat = false
 				break
 			}
